@@ -162,10 +162,10 @@ def r2_ready_wake_agreement(ctx):
                     return SWAP[a[1]]
         return None
     for b in ready_blocks:
-        op = deadline_vs_now([a for _, a in fp.guard_atoms(b)])
+        op = deadline_vs_now([a for _, a in fp.guard_atoms(b, derived=True)])
         ctx.check(op == 'le', 'sleep-ready-table', 'Sleep::poll returns Ready iff deadline <= now', fp.where(b), 'deadline %s now' % op)
     for b in pending_blocks:
-        op = deadline_vs_now([a for _, a in fp.guard_atoms(b)])
+        op = deadline_vs_now([a for _, a in fp.guard_atoms(b, derived=True)])
         ctx.check(op == 'gt', 'sleep-pending-table', 'Sleep::poll returns Pending iff deadline > now', fp.where(b), 'deadline %s now' % op)
     # bump: closures return slot.time <= cur, cur = now()
     atoms = _closure_ret_atoms(P, fb)
@@ -340,7 +340,7 @@ def r4_wake_before_callback(ctx):
     wr = f.writes_to_field('next_wakeup')
     if ctx.floor('next_wakeup clear in activate', len(wr), 1):
         for (b, i, st) in wr:
-            atoms = [a for _, a in f.guard_atoms(b)]
+            atoms = [a for _, a in f.guard_atoms(b, derived=True)]
             g = any(a[0] == 'cmp' and a[1] == 'le' and any(x[0] == 'field' and x[2] == 'next_wakeup' for x in walk(a[2])) and any(x[0] == 'call' and x[1] == NOW for x in walk(a[3])) for a in atoms)
             v = f.expr_rvalue(st['r'], b, i)
             cleared = 'MAX' in show(v) or (peel(v)[0] == 'agg' and str(peel(v)[1]).endswith('Option::None'))
@@ -376,7 +376,7 @@ def r5_registration(ctx, rule='C05.R5'):
                         any(x[0] == 'call' and x[1] == D + 'Driver::with_current' for x in walk(t)) for _, t in ret_trees(g)):
                     lazy = c
     if lazy is not None:
-        atoms = [a for _, a in fp.guard_atoms(lazy.b)]
+        atoms = [a for _, a in fp.guard_atoms(lazy.b, derived=True)]
         pend = any(a[0] == 'cmp' and a[1] == 'gt' for a in atoms)
         ctx.check(pend, 'register-iff-unscheduled', 'a pending sleep registers iff it holds no handle yet (get_or_insert_with on the handle, reached only while pending)',
                   lazy.where(), [show_atom(a) for a in atoms])
@@ -396,7 +396,7 @@ def r5_registration(ctx, rule='C05.R5'):
         ctx.check(stored, 'handle-stored', 'the registration handle is stored in the sleep', s.where())
     res = fp.calls_to(TH + '::resolve')
     if ctx.floor('resolve in Sleep::poll', len(res), 1):
-        atoms = [a for _, a in fp.guard_atoms(res[0].b)]
+        atoms = [a for _, a in fp.guard_atoms(res[0].b, derived=True)]
         ctx.check(any(a[0] == 'cmp' and a[1] == 'le' for a in atoms), 'resolve-when-ready', 'the handle is resolved only on the Ready branch', res[0].where(), [show_atom(a) for a in atoms])
     # Drop of the handle removes unless resolved
     fd = ctx.anchor('<%s as std::ops::Drop>::drop' % TH)
